@@ -131,9 +131,10 @@ pub fn render_file(fi: usize, f: &TFile) -> RenderedFile {
     for (bi, b) in f.blocks.iter().enumerate() {
         pad(&mut new, &mut old, f.outside & (1 << bi) != 0);
         let name = format!("f{fi}b{bi}");
-        let layout = if h.block.is_none() { 0 } else { b.layout % 4 };
+        // layout 4: both tags inside ONE multi-line block comment, the start tag below its first line (no content)
+        let layout = if h.block.is_none() { 0 } else { b.layout % 5 };
         let mut classes = b.classes & 7;
-        if b.lines.is_empty() {
+        if b.lines.is_empty() || layout == 4 {
             classes &= !INSIDE;
         }
         let inside_kind = if classes & INSIDE != 0 {
@@ -180,8 +181,17 @@ pub fn render_file(fi: usize, f: &TFile) -> RenderedFile {
         } else {
             ("</block> tail".to_string(), "</block> tail".to_string())
         };
-        let tag_line = new.len() + 1;
-        if layout == 2 {
+        let mut tag_line = new.len() + 1;
+        if layout == 4 {
+            let (o, c) = h.block.unwrap();
+            tag_line += 1;
+            for (v, tag, end) in [(&mut new, &tag_new, &end_new), (&mut old, &tag_old, &end_old)] {
+                v.push(o.to_string());
+                v.push(format!("   {mb}{tag}"));
+                v.push(format!("   {end}"));
+                v.push(format!(" {c}"));
+            }
+        } else if layout == 2 {
             // everything on one line; content is the single first line (or empty)
             let c_new = b.lines.first().cloned().unwrap_or_default();
             let c_old = if classes & INSIDE != 0 { format!("{c_new}_o") } else { c_new.clone() };
@@ -245,7 +255,7 @@ pub fn render_file(fi: usize, f: &TFile) -> RenderedFile {
         extents.push(Extent { name, tag_line, end_line, selected: classes & (INSIDE | TAG) != 0, content_modified: classes & INSIDE != 0 });
     }
     // a file that ends in a one-line block keeps its padding: a newline-only change of that line would touch tag and content at once
-    let last_one_line = f.blocks.last().is_some_and(|b| h.block.is_some() && b.layout % 4 == 2);
+    let last_one_line = f.blocks.last().is_some_and(|b| h.block.is_some() && matches!(b.layout % 5, 2 | 4));
     let tail = match f.tail % 6 {
         2 if last_one_line => 1,
         3 if last_one_line => 0,
@@ -412,7 +422,7 @@ pub fn block_strategy() -> BoxedStrategy<TBlock> {
         any::<u8>(),
         0u8..3,
         0u8..2,
-        prop_oneof![3 => Just(0u8), 1 => Just(1u8), 1 => Just(2u8), 1 => Just(3u8)],
+        prop_oneof![3 => Just(0u8), 1 => Just(1u8), 1 => Just(2u8), 1 => Just(3u8), 1 => Just(4u8)],
         proptest::bool::weighted(0.25),
     )
         .prop_map(|(mut rules, ls, classes, inside_kind, inside_at, tag_kind, end_kind, layout, multibyte)| {
@@ -607,7 +617,7 @@ pub fn check_sweep(c: &SweepCase, probe: &Probe) -> Verdict {
 }
 
 pub fn run(run: &mut Run) {
-    run.rule = "random: 1..3 files (js, sh, rs, py, c) x 2..7 uniquely named non-nested blocks (own-line line comments, own-line block comments, everything on one line, or a start tag spread over three lines with the edited attribute on the middle one) separated by 5 padding lines, each with 0..2 rules (keep-sorted, keep-unique, line-pattern, line-count, check-lua echo/nil; violating or not by chance) and a *set* of edit classes: inside (replace / insert / pure deletion / blanking of a content line), tag-only (substitute or insert a character of an attribute value, append an attribute), end-tag-only (text after </block>, whitespace in </ block >), plus edits of padding lines (outside) and untouched blocks; multi-byte text before the tag in 25%; real `git diff -U0..10`; optional path arguments. Oracle: (a) `list` in diff mode = exactly the inside/tag-only blocks with is_content_modified exactly for inside; (b) diff-mode diagnostics = full-scan diagnostics restricted to the selected blocks' extents, exit status accordingly; (c) with path arguments = full scan of those files + diff-mode result of the others. enumerated sweep: every byte position of the start tag, the comment text before and after it, the content, the whole end-tag comment and the code after it in 3 one-line block templates (ASCII, multi-byte before the tag, indented) x {substitute, insert, delete}. Non-trivial (random) = a violating untouched block, a violating selected block and a tag-only block; (sweep) = a region boundary or a position where byte and character columns differ.".into();
+    run.rule = "random: 1..3 files (js, sh, rs, py, c) x 2..7 uniquely named non-nested blocks (own-line line comments, own-line block comments, everything on one line, a start tag spread over three lines with the edited attribute on the middle one, or both tags inside one multi-line block comment) separated by 5 padding lines, each with 0..2 rules (keep-sorted, keep-unique, line-pattern, line-count, check-lua echo/nil; violating or not by chance) and a *set* of edit classes: inside (replace / insert / pure deletion / blanking of a content line), tag-only (substitute or insert a character of an attribute value, append an attribute), end-tag-only (text after </block>, whitespace in </ block >), plus edits of padding lines (outside) and untouched blocks; multi-byte text before the tag in 25%; real `git diff -U0..10`; optional path arguments. Oracle: (a) `list` in diff mode = exactly the inside/tag-only blocks with is_content_modified exactly for inside; (b) diff-mode diagnostics = full-scan diagnostics restricted to the selected blocks' extents, exit status accordingly; (c) with path arguments = full scan of those files + diff-mode result of the others. enumerated sweep: every byte position of the start tag, the comment text before and after it, the content, the whole end-tag comment and the code after it in 3 one-line block templates (ASCII, multi-byte before the tag, indented) x {substitute, insert, delete}. Non-trivial (random) = a violating untouched block, a violating selected block and a tag-only block; (sweep) = a region boundary or a position where byte and character columns differ.".into();
     run.assumptions = vec![
         "pure line deletions are only generated where no earlier net line shift exists in the file (K1 excluded by construction, counted)".into(),
         "the sweep edits the OLD line only (the parsed NEW line is always the intact template); a deletion directly adjoining the start tag's `<` or `>` is unspecified and not judged".into(),
